@@ -45,6 +45,11 @@ def apply_op(objs, op, kind):
         objs[op["h"]] = objs[op["c"]].create_property(W.conc_name(op["n"]), values=[1])
     elif n == "create_prop_badvals":
         objs[op["h"]] = objs[op["c"]].create_property(W.conc_name(op["n"]), values=[1, "high"])
+    elif n == "new_id":
+        if op["y"] == "none":
+            objs[op["x"]].new_id()
+        else:
+            objs[op["x"]].new_id(objs[op["y"]].id)
     elif n == "clone_attach":
         y = objs[op["x"]].clone(keep_id=op["keep"])
         if op["c"] != "none":
@@ -54,9 +59,9 @@ def apply_op(objs, op, kind):
         raise C.MachineryError("unknown op " + n)
 
 
-def step(objs, op, kind):
+def step(objs, op, kind, birth=None):
     """Perform op on the real objects; returns (pre, out, exc, post, objs2)."""
-    pre, objs = W.project(objs)
+    pre, objs = W.project(objs, birth=birth)
     try:
         apply_op(objs, op, kind)
         out, exc = "ok", "none"
@@ -64,7 +69,7 @@ def step(objs, op, kind):
         raise
     except Exception as e:
         out, exc = "raised", type(e).__name__
-    post, objs2 = W.project(objs)
+    post, objs2 = W.project(objs, birth=birth)
     # make the domains of pre and post comparable: objects discovered only after the
     # operation (leaked half-constructed objects) stay in post only -> post # pre.
     return pre, out, exc, post, objs2
@@ -73,10 +78,11 @@ def step(objs, op, kind):
 def replay(t):
     """One TLC-generated transition = one independent test of the real code."""
     objs = W.build(t["pre"])
-    pre0, _ = W.project(objs, docof=False)
-    if pre0 != t["pre"]:
+    birth = {}
+    pre0, _ = W.project(objs, docof=False, birth=birth)
+    if {f: pre0[f] for f in t["pre"]} != t["pre"]:
         raise C.MachineryError("could not build pre-state: %r vs %r" % (pre0, t["pre"]))
-    pre, out, exc, post, _ = step(objs, t["op"], t["pre"]["kind"])
+    pre, out, exc, post, _ = step(objs, t["op"], t["pre"]["kind"], birth)
     yield {"fam": "tree", "src": "model", "op": t["op"], "out": out, "exc": exc, "pre": pre, "post": post}
 
 
@@ -95,7 +101,9 @@ def _ops_for(st, rng):
     kids = [h for h in objs if st["kind"][h] in ("sec", "prop")]
     c, x, y = rng.choice(conts), rng.choice(kids), rng.choice(kids)
     name = rng.choice(["append", "insert", "extend2", "remove", "set_parent", "setitem", "reorder", "rename",
-                       "append", "set_parent", "insert", "rename", "clone_attach"])
+                       "append", "set_parent", "insert", "rename", "clone_attach", "new_id"])
+    if name == "new_id":
+        return {"name": name, "x": x, "y": rng.choice(kids + ["none", "none"])}
     if name == "clone_attach":
         if len(objs) >= 16:
             name = "rename"
@@ -126,12 +134,13 @@ def replay_history(t):
     st0 = {"kind": {}, "kids": {}, "plist": {}, "par": {}, "name": {}}
     for h, k in u.items():
         st0["kind"][h] = k; st0["kids"][h] = []; st0["plist"][h] = []; st0["par"][h] = "none"
-        st0["name"][h] = rng.choice(["a", "b"]) if k in ("sec", "prop") else "-"
+        st0["name"][h] = rng.choice(["a", "b", "#" + h]) if k in ("sec", "prop") else "-"
     objs = W.build(st0)
+    birth = {}
     for i in range(t["depth"]):
-        cur, objs = W.project(objs, docof=False)
+        cur, objs = W.project(objs, docof=False, birth=birth)
         op = _ops_for(cur, rng)
-        pre, out, exc, post, objs = step(objs, op, cur["kind"])
+        pre, out, exc, post, objs = step(objs, op, cur["kind"], birth)
         yield {"fam": "tree", "src": "hist" if op["name"] == "clone_attach" else "model", "hist": t["hist"], "step": i, "op": op,
                "out": out, "exc": exc, "pre": pre, "post": post}
         # a parent cycle makes later library calls loop: stop the history there
